@@ -29,8 +29,10 @@ func newExec(p *Program, mode string) *Exec {
 		frames: map[*ssa.Function]*writeSet{}, siteNames: map[ssa.Instruction]string{},
 		constSliceArr: map[string]*Term{}, usedExterns: map[string]bool{}, boxes: map[int]*Value{},
 	}
+	ex.allocBases = map[int]bool{}
 	if !ex.L.bv {
 		ex.allocBase = tb.Const("allocBase", SInt)
+		ex.allocBases[ex.allocBase.id] = true
 	}
 	// abstract models of dependency types
 	for name, fields := range p.abstractDefs {
